@@ -8,8 +8,9 @@ depend on them beyond the matching order, which C01 decides).
 Oracle: exact rational expressions of the INPUT variables - proceeds = V(e) * c / D(e), cost = W(L) * c / in(L),
 gain = proceeds - cost, sums of an event's fractions = V(e), sums of an exhausted lot's fractions = W(L) - compared with the
 figures the real code computes on the exact-rational substrate (equality of rational functions, decided symbolically),
-plus the rounding side condition: operations x 10^(1 - prec) <= 1e-15 with prec read from the decimal context that the
-real rp2_decimal module configures, and the FloatOperation trap it sets.
+plus rounding: every substrate value carries an upper bound on the rounding error of the real `prec`-digit arithmetic
+(prec read from the decimal context that the real rp2_decimal module configures, whose FloatOperation trap is checked too);
+the bound of every reported proceeds / cost figure must stay below 1e-15 relative (symbolic after a cancellation).
 """
 from symx.api import us_of
 
@@ -102,6 +103,14 @@ def run(S, spec):
     from .common import make_cfg, run_tax  # pylint: disable=import-outside-toplevel
 
     S.set_years([2020])
+    S.track_rounding(True)
+    try:
+        return _run(S, spec, InTransaction, InputData, IntraTransaction, OutTransaction, ZERO, RP2ValueError, TransactionSet, make_cfg, run_tax)
+    finally:
+        S.track_rounding(False)
+
+
+def _run(S, spec, InTransaction, InputData, IntraTransaction, OutTransaction, ZERO, RP2ValueError, TransactionSet, make_cfg, run_tax):
     cfg = make_cfg("us", allow_negative=True)
     A_MAX, P_MAX, F_MAX = 10**20, 10**15, 10**16
     lots, events = [], []
@@ -190,6 +199,15 @@ def run(S, spec):
             per_event[ev.row][0] = per_event[ev.row][0] + c
             per_event[ev.row][1] = per_event[ev.row][1] + proceeds
         S.expect(S.eq(gain, proceeds - cost), "C04", "gain", "%s: gain is not proceeds minus cost basis" % what)
+        # rounding: the real 31-digit arithmetic must stay within 1e-15 (relative; for the gain relative to its two operands)
+        want_p = ev.W if g.acquired_lot is None else ev.V * c / ev.D
+        S.rounding_within(g.taxable_event_fiat_amount_with_fee_fraction, want_p, "C04", "rounding", "%s: proceeds can be off by more than 1e-15 relative" % what, exact=want_p)
+        if g.acquired_lot is not None:
+            S.rounding_within(g.fiat_cost_basis, want_cost, "C04", "rounding", "%s: cost basis can be off by more than 1e-15 relative" % what, exact=want_cost)
+        # (the gain is asserted above to be exactly proceeds - cost: one more rounding of a difference whose two operands are each
+        # within 1e-15, i.e. within 1e-15 of |proceeds| + |cost|; a relative bound on the difference itself would over-demand)
+        if S.mode == "con":
+            S.rounding_within(g.fiat_gain, want_p + want_cost, "C04", "rounding", "%s: gain is off by more than 1e-15 of proceeds + cost" % what, exact=want_p - want_cost)
         # rounding side condition of the exact model
         for name, val in (("proceeds", g.taxable_event_fiat_amount_with_fee_fraction), ("cost", g.fiat_cost_basis), ("gain", g.fiat_gain)):
             ops = getattr(val, "nr", 0)
